@@ -105,16 +105,16 @@ Proof.
     apply in_map_iff in Hin. destruct Hin as [id' [E Hid']]. inversion E; subst id'.
     specialize (Hsome id Hid'). unfold g in *. destruct (hier_rank levels id) as [j|]; [|congruence].
     exists j. split; reflexivity. }
+  destruct ids as [|id0 ids0]; [apply accepts_nil|].
+  remember (id0 :: ids0) as ids eqn:Eids.
+  assert (Hhsne : (0 < length hs)%nat).
+  { assert (In id0 hs) by (apply Hknown; rewrite Eids; now left). destruct hs; [contradiction|cbn; lia]. }
   assert (Hwf : wf_msp (zmsp rl)).
   { rewrite <- Hz. exists (length hs), k. cbn [msp_M msp_lab]. split; [split; [exact Hlr|]|].
     - apply Forall_forall. intros v Hv. rewrite Hrows in Hv. apply in_map_iff in Hv. destruct Hv as [id [<- Hid]].
       specialize (Hsome id Hid). unfold g in *. destruct (hier_rank levels id); [|congruence].
       now rewrite map_length, seq_length.
-    - split; [reflexivity|]. split; [lia|]. apply andb_true_iff in Echk. destruct Echk as [Echk _].
-      apply Nat.eqb_eq in Echk. destruct hs as [|h0 hs0]; [|cbn; lia].
-      exfalso. clear -Hk Ek. cbn in *. lia. }
-  destruct ids as [|id0 ids0]; [apply accepts_nil|].
-  remember (id0 :: ids0) as ids eqn:Eids.
+    - split; [reflexivity|]. split; [lia|exact Hhsne]. }
   assert (Hne' : ids <> []) by (rewrite Eids; discriminate).
   assert (Hknown' : forall id, In id ids -> In id (map fst rl)).
   { intros id Hid. unfold rl. rewrite map_fst_combine by auto. now apply Hknown. }
